@@ -194,8 +194,19 @@ func VerifCore_Prepare() {
 		sym.Assert(!e.h.alarm.IsZero() && !e.h.alarm.Before(e.h.now), "T1: a participant that waits has a pending alarm")
 		return
 	}
-	mb := e.lastBroadcast()
-	sym.Assert(mb.Payload.Phase == COMMIT_PHASE && mb.Payload.Round == 0, "emits COMMIT for round 0")
+	// (with a peer that is a strong quorum on its own, its COMMIT may already have led on to DECIDE)
+	var mb *MessageBuilder
+	for _, b := range e.h.broadcasts {
+		if b.Payload.Phase == COMMIT_PHASE && b.Payload.Round == 0 {
+			mb = b
+		}
+	}
+	if mb == nil {
+		// a strong quorum of COMMITs seen while still in PREPARE leads straight to DECIDE
+		forC, _ := e.tally(0, COMMIT_PHASE, proposal)
+		sym.Assert(e.phase() == DECIDE_PHASE && IsStrongQuorum(forC, e.total()), "leaves PREPARE without a COMMIT of its own only on a strong COMMIT quorum (to DECIDE)")
+		return
+	}
 	forP, all := e.tally(0, PREPARE_PHASE, proposal)
 	strong := IsStrongQuorum(forP, e.total())
 	if mb.Payload.Value.IsZero() {
